@@ -51,10 +51,13 @@ def cps(s):
     return "(" + " ".join(str(ord(c)) for c in s) + ")"
 
 
+_BIG = 10 ** 4000
+
+
 def int_str(v):
     """decimal text of an int of any size (CPython refuses str() beyond 4300 digits; the real code must keep that limit,
     so the harness does not lift it but prints in chunks)"""
-    if -10 ** 4000 < v < 10 ** 4000:
+    if -_BIG < v < _BIG:
         return "%d" % v
     sign = "-" if v < 0 else ""
     v = abs(v)
